@@ -9,7 +9,7 @@ DIS = "rspirv::binary::disassemble"
 
 
 def inst(name, opcode="Nop"):
-    return ("struct", "Instruction", {"class": ("struct", "Instruction", {"opcode": ("enum", "Op::" + opcode, []), "opname": ("str", opcode)}),
+    return ("struct", "Instruction", {"class": ("struct", "Instruction", {"opcode": ("enum", "Op::" + opcode, []), "opname": ("str", opcode), "capabilities": ("list", []), "extensions": ("list", []), "operands": ("list", [("sym", "LOGICAL_OPERAND")])}),
                                       "result_type": NONE, "result_id": NONE, "operands": ("list", []), "name": name})
 
 
